@@ -2,6 +2,7 @@
 //! verdicts are in the shard file, decided by the driver).
 use crate::{Ctx, Recorder};
 
+pub mod c22;
 pub mod c25;
 pub mod c27;
 pub mod c29;
@@ -10,6 +11,7 @@ pub mod c29_core;
 pub fn dispatch(ctx: &Ctx) -> i32 {
     let mut rec = Recorder::new();
     let r = match ctx.id.as_str() {
+        "C22" => c22::run(ctx, &mut rec),
         "C25" => c25::run(ctx, &mut rec),
         "C27" => c27::run(ctx, &mut rec),
         "C29" => c29::run(ctx, &mut rec),
